@@ -343,7 +343,7 @@ func (c *Ctx) casRule(kinds []string) {
 							}
 							if len(rs.Results) == 1 {
 								// return Self(c, r): a call yielding both results
-								if call, ok := ast.Unparen(rs.Results[0]).(*ast.CallExpr); ok && calleeOf(info, call) == self {
+								if call, ok := ast.Unparen(rs.Results[0]).(*ast.CallExpr); ok && selfCallee(info, cf.Decl.Body, call) == self {
 									outcomes["retry"] = true
 									return
 								}
@@ -362,7 +362,7 @@ func (c *Ctx) casRule(kinds []string) {
 								}
 							}
 							if call, ok := r0.(*ast.CallExpr); ok {
-								if calleeOf(info, call) == self {
+								if selfCallee(info, cf.Decl.Body, call) == self {
 									outcomes["retry"] = true
 									return
 								}
@@ -458,6 +458,26 @@ func (c *Ctx) responseLiteral(cf *coroFunc, e ast.Expr, path []ast.Node) *ast.Co
 	}
 	if cl, ok := e.(*ast.CompositeLit); ok {
 		return cl
+	}
+	// a response built by a helper of the package: what it carries is what the helper is handed
+	if call, ok := e.(*ast.CallExpr); ok {
+		if hl := helperLiteral(cf.Env.pk, call); hl != nil && isNamed(info.Types[hl].Type, pkgTApi, "Response") {
+			if fn, ok := calleeOf(info, call).(*types.Func); ok {
+				sig := fn.Type().(*types.Signature)
+				syn := &ast.CompositeLit{Lbrace: call.Pos(), Rbrace: call.End()}
+				for i, a := range call.Args {
+					name := fmt.Sprintf("arg%d", i)
+					if i < sig.Params().Len() && sig.Params().At(i).Name() != "" {
+						name = sig.Params().At(i).Name()
+					}
+					if isObj(info, a, paramOfType(info, cf.Decl, pkgTApi, "Request")) {
+						continue // the request itself (tags, kind) is not store data
+					}
+					syn.Elts = append(syn.Elts, &ast.KeyValueExpr{Key: ast.NewIdent(name), Value: a})
+				}
+				return syn
+			}
+		}
 	}
 	id, ok := e.(*ast.Ident)
 	if !ok {
@@ -582,11 +602,62 @@ func (c *Ctx) checkSpawnRestart(cf *coroFunc, w *writePoint, key string, self ty
 		}
 		if n := len(ifs.Body.List); n > 0 {
 			if rs, isRet := ifs.Body.List[n-1].(*ast.ReturnStmt); isRet && len(rs.Results) >= 1 {
-				if call, isCall := ast.Unparen(rs.Results[0]).(*ast.CallExpr); isCall && calleeOf(info, call) == self {
+				if call, isCall := ast.Unparen(rs.Results[0]).(*ast.CallExpr); isCall && selfCallee(info, cf.Decl.Body, call) == self {
 					ok = true
 				}
 			}
 		}
 	}
 	c.check(ok, key+"/lost-write", w.Call.Pos(), "any spawned lazy time-out ⇒ the search is run again", "after spawning guarded writes the coroutine does not start over: it answers from rows read before the writes")
+}
+
+// selfCallee: what a call invokes for the purpose of "the coroutine starts over": the callee itself,
+// or — when the call goes through a local function value defined once by a literal whose whole body
+// is `return f(args…)` — that f (`retry := func() (…) { return X(c, r) }; return retry()`).
+func selfCallee(info *types.Info, fdBody *ast.BlockStmt, call *ast.CallExpr) types.Object {
+	if o := calleeOf(info, call); o != nil {
+		if _, isFn := o.(*types.Func); isFn {
+			return o
+		}
+		// a local function value
+		if v, isVar := o.(*types.Var); isVar && fdBody != nil {
+			var lit *ast.FuncLit
+			n := 0
+			ast.Inspect(fdBody, func(x ast.Node) bool {
+				if as, ok := x.(*ast.AssignStmt); ok {
+					for i, l := range as.Lhs {
+						if id, ok := l.(*ast.Ident); ok && (info.Defs[id] == v || info.Uses[id] == v) && i < len(as.Rhs) {
+							n++
+							lit, _ = ast.Unparen(as.Rhs[i]).(*ast.FuncLit)
+						}
+					}
+				}
+				return true
+			})
+			if n == 1 && lit != nil && len(lit.Body.List) == 1 {
+				if rs, ok := lit.Body.List[0].(*ast.ReturnStmt); ok && len(rs.Results) == 1 {
+					if inner, ok := ast.Unparen(rs.Results[0]).(*ast.CallExpr); ok {
+						return calleeOf(info, inner)
+					}
+				}
+			}
+		}
+		return o
+	}
+	return nil
+}
+
+// paramOfType: the parameter of fd whose type is *pkg.name (nil if none).
+func paramOfType(info *types.Info, fd *ast.FuncDecl, pkg, name string) types.Object {
+	if fd.Type.Params == nil {
+		return nil
+	}
+	for _, f := range fd.Type.Params.List {
+		for _, nm := range f.Names {
+			if o := info.Defs[nm]; o != nil && isNamed(derefType(o.Type()), pkg, name) {
+				return o
+			}
+		}
+	}
+	return nil
 }
